@@ -14,6 +14,7 @@
 #endif
 #include "../sim/composite.hpp"
 #include "../sim/driver.hpp"
+#include "../sim/onepass.hpp"
 #include "../sim/worker.hpp"
 
 #include <algorithm>
@@ -921,7 +922,17 @@ struct SetDriver : DriverBase<SetDriver<Set, K, N, MCmp, Which, Transparent>> {
             K const* f = buf.begin();
             K const* l = buf.end();
             switch (form) {
-            case 1: made = new (mem) Set(f, l); break;
+            case 1:
+                if constexpr (!isFlat) {
+                    if (!bad && st.k[2] % 3 == 0) {
+                        // the same range through a single-pass input iterator: it can be walked once only
+                        OnePassSource<K> once{f, static_cast<size_t>(l - f), 0};
+                        made = new (mem) Set(OnePassIt<K>{&once}, OnePassIt<K>{});
+                        break;
+                    }
+                }
+                made = new (mem) Set(f, l);
+                break;
             case 2: made = new (mem) Set(static_cast<Set const&>(*obj[b])); break;
             case 3: made = new (mem) Set(static_cast<Set&&>(*obj[b])); break;
             case 4:
